@@ -9,7 +9,7 @@
 From Coq Require Import List NArith Bool.
 From Gluon Require Import Gen.FactsFilters Model.FilterPolicy Model.Responders Model.Session Proofs.MirrorProofs Proofs.PopProofs
   Proofs.ConvergeProofs Proofs.MembershipProofs Proofs.ViewProofs Proofs.StoreViewProofs Proofs.CommuteProofs Proofs.InterleaveProofs
-  Proofs.SessionWitness.
+  Proofs.ObserverProofs Proofs.SessionWitness.
 Import ListNotations.
 Open Scope N_scope.
 
@@ -166,6 +166,29 @@ Example C02_flush_placement_hypotheses_hold :
   let rs := [RExpunge 1; RExists 1 3 [] false false; RFetch 1 [5] FAdd false false false; RExists 7 4 [] false false] in
   wf s rs /\ (forall m, alt m rs) /\ V rs s = [mkSmsg 2 2 []; mkSmsg 1 3 [5]; mkSmsg 7 4 []].
 Proof. exact wf_example. Qed.
+
+(* The observing session, end to end: foreign updates are delivered one by one (each filtered against the snapshot and
+   the pending responders it meets, as State.QueueUpdates/ApplyUpdate do) and the session's own flushes — on behalf of
+   FETCH/STORE/SEARCH or permitting — fall anywhere in between; after a final permitting flush (NOOP) nothing is pending
+   and the snapshot is exactly what the plain meaning of the updates (view_apply) makes of the initial one: the same
+   messages under the same UIDs in the same order with the same flags. Hypotheses: the updates are foreign (not the
+   session's own commands: refuted in general, C02_world_refuted) and the responder stream they produce is well-formed
+   for the snapshot (wf / alt as above; Example C02_observer_example). *)
+Theorem C02_observer_converges : forall o mb ops snap0,
+  Forall (foreign_upd o) (updates_of ops) ->
+  wf snap0 (ofuture o mb (ops ++ [OFlush true]) snap0 []) ->
+  (forall m, alt m (ofuture o mb (ops ++ [OFlush true]) snap0 [])) ->
+  orun o mb (ops ++ [OFlush true]) snap0 []
+  = Some (fold_left (fun v u => view_apply mb u v) (updates_of ops) snap0, []).
+Proof. exact observer_converges. Qed.
+Print Assumptions C02_observer_converges.
+
+Example C02_observer_example :
+  Forall (foreign_upd 0%nat) (updates_of ex_ops) /\
+  wf ex_snap (ofuture 0%nat 0 (ex_ops ++ [OFlush true]) ex_snap []) /\
+  (forall m, alt m (ofuture 0%nat 0 (ex_ops ++ [OFlush true]) ex_snap [])) /\
+  orun 0%nat 0 (ex_ops ++ [OFlush true]) ex_snap [] = Some ([mkSmsg 2 2 []; mkSmsg 1 3 [5]; mkSmsg 9 4 []], []).
+Proof. exact observer_example. Qed.
 
 (* a repaired defect that the attempt to prove convergence for interleaved flushes exposed (replayed on the server:
    corpus scenario readd-while-held-then-flags; fix: commit dec5b54): with the pop policy before the repair a
